@@ -50,6 +50,8 @@ const preambleArray = `(set-option :produce-models true)
      :pattern ((select (chars (scat a b)) i))))
   (forall ((j Int)) (! (=> (and (<= 0 j) (< j (slen b))) (= (select (chars (scat a b)) (+ (slen a) j)) (select (chars b) j))) :pattern ((select (chars b) j)))))
   :pattern ((scat a b)))))
+(assert (forall ((a Str)) (! (= (scat a emptystr) a) :pattern ((scat a emptystr)))))
+(assert (forall ((a Str)) (! (= (scat emptystr a) a) :pattern ((scat emptystr a)))))
 (declare-fun ssub (Str Int Int) Str)
 (assert (forall ((s Str) (lo Int) (hi Int)) (! (and (= (slen (ssub s lo hi)) (- hi lo))
   (forall ((i Int)) (! (and (=> (and (<= 0 i) (< i (- hi lo))) (= (select (chars (ssub s lo hi)) i) (select (chars s) (+ lo i))))
